@@ -97,7 +97,7 @@ def run(tier, seed):
         nconn = 150 if tier == "quick" else 12000
         _, plans = conn.gen_plans(wd, nconn, [0], seed)
         plans += sweep_plans(plans[0], rng, tier)
-        trace, blobs, decoded, dec = conn.run_plans(wd, plans, "c04")
+        trace, blobs, decoded, dec = conn.run_plans(wd, plans, "c04", v=v, key="panic:abort")
         blob_rows = [json.loads(l) for l in open(blobs) if l.strip()]
         # activation / input runs over the scripted stream add every input event kind and id class
         gen, hists = activation.generate(wd, 2, module="Gen_Input")
